@@ -1,7 +1,7 @@
 """C15: concurrent control frames never corrupt the WebSocket frame stream (spec/wsconc/WsConc.tla).
 
 MC      TLC explores every interleaving of the data writer, the control senders and the closer
-        in the model and checks WholeFrames / AfterClose / InOrder / ResultsHonest; four named
+        in the model and checks WholeFrames / AfterClose / InOrder / ResultsHonest; five named
         deviations must each violate an invariant (non-vacuity).
 GEN     Gen_WsConc projects behaviours on the steps a harness can force (begin a call, let a
         transport operation happen) and emits them as schedules; with a deviation switched on it
@@ -34,11 +34,18 @@ FAMILIES = {
     "atk_split":   (12, None),
     "atk_nocheck": (12, None),
     "atk_nolatch": (12, None),
+    # control writes with a short deadline: they give up waiting for the lock held by D
+    "timeout":        (60, None),
+    "timeout2s":      (60, 1500),
+    "atk_timeout":    (25, None),
+    "atk_timeout2s":  (25, 300),
 }
 THOROUGH_ONLY = {
     "free":           1500,     # every lock hand-off order, not only first-come-first-served
     "twocalls":       None,
     "atk_nolock_big": 300,
+    "timeout2":       1000,
+    "atk_timeout2":   300,
 }
 SIMULATED = {"sim": (4000, 120), "simclient": (1500, 100)}   # cfg -> (behaviours, depth)
 
@@ -144,12 +151,14 @@ def run(ctx):
     quick = t == "quick"
     ctx.rule = ("MC: every interleaving of 1 data writer (3 frames, one with `extra`) x ping sender x close sender x closer and of three "
                 "more programs; GEN: every schedule (sequence of call begins and transport operations) the model allows for the cfg "
-                "programs under eager internal steps, plus attack schedules from the four deviation models, sampled by seed in the quick "
+                "programs under eager internal steps, plus attack schedules from the five deviation models, sampled by seed in the quick "
                 "tier with all decisive schedules kept; each is forced on a real Conn over a gated transport under -race and the recorded "
                 "execution is accepted by Trace_WsConc; distinct = distinct schedule JSON")
     ctx.exhaustive = not quick
     ctx.assumptions += [
-        "control write deadlines are far in the future: the lock-acquisition timeout of WriteControl never fires and is not modelled",
+        "control write deadlines are of two classes: far away (the call waits for the lock for ever) and short (2 ms: the call may "
+        "give up with the write timeout error; time itself is not modelled, giving up is possible whenever such a call waits); "
+        "a call that began after the Close frame and gave up on its short deadline counts as failed although its error is not close-sent",
         "one data writer (the package forbids more), compression off, write buffer 256 bytes, server and client role",
         "the transport's Write is atomic (one call = one contiguous byte range) and fails once Conn.Close closed it",
         "lock hand-off among several waiters is the Go runtime's choice: TLC covers all orders in the model, the replay the ones "
@@ -173,9 +182,11 @@ def run(ctx):
 
     mc = [("MC_WsConc.cfg", None), ("MC_WsConc_twocalls.cfg", None),
           ("MC_WsConc_nolock.cfg", "WholeFrames"), ("MC_WsConc_nocheck.cfg", "AfterClose"),
-          ("MC_WsConc_split.cfg", "WholeFrames"), ("MC_WsConc_nolatch.cfg", "AfterClose")]
+          ("MC_WsConc_split.cfg", "WholeFrames"), ("MC_WsConc_nolatch.cfg", "AfterClose"),
+          ("MC_WsConc_timeout.cfg", None), ("MC_WsConc_timeoutrel.cfg", "WholeFrames"),
+          ("MC_WsConc_timeoutrel_lock.cfg", "LockOK")]
     if not quick:
-        mc += [("MC_WsConc_twoclose.cfg", None), ("MC_WsConc_big.cfg", None)]
+        mc += [("MC_WsConc_twoclose.cfg", None), ("MC_WsConc_big.cfg", None), ("MC_WsConc_timeoutbig.cfg", None)]
     fams = dict((f, n[0] if quick else n[1]) for f, n in FAMILIES.items())
     if not quick:
         fams.update(THOROUGH_ONLY)
@@ -191,7 +202,7 @@ def run(ctx):
         ctx.tlc(SUB, "Gen_WsConc", "Gen_WsConc_%s.cfg" % f, cases_to=p, count_states=False, workers=2, timeout=1500)
         return f, p
 
-    with ThreadPoolExecutor(6) as ex:
+    with ThreadPoolExecutor(8) as ex:
         mcf = [ex.submit(run_mc, j) for j in mc]
         genf = [ex.submit(run_gen, f) for f in fams]
         for f in mcf:
